@@ -54,6 +54,7 @@ fn seq_enumeration<F: Fam>(spec: &CaseSpec, prop: &'static str) {
     let mut ubs = BTreeSet::new();
     let mut nontrivial_cuts = 0u64;
     for k in 1..=kmax + 1 {
+        tick();
         let mut c = cfg.clone();
         c.cutoff_k = k;
         let out = run_solver(&inst, &c);
